@@ -274,6 +274,24 @@ fn extreme_one(doc: &[u8], n: i32, acc: &mut Acc, ctx: &dyn Fn() -> serde_json::
     }
 }
 
+/// decimal spellings around every width boundary up to 2^126, with padding zeros and signs
+pub fn extreme_number_texts() -> Vec<String> {
+    let mut nums: Vec<String> = vec![];
+    for k in [7u32, 8, 15, 16, 31, 32, 33, 62, 63, 64, 65, 126] {
+        let p = 1i128 << k;
+        for d in [-2i128, -1, 0, 1, 2] {
+            nums.push((p + d).to_string());
+            nums.push((-(p + d)).to_string());
+        }
+    }
+    for s in ["0", "-0", "00", "-00000000001", "0000000000000000000000000000000000000001", "99999999999999999999999999999999999999999999999999", "-99999999999999999999999999999999999999999999999999", "2147483647", "-2147483648", "2147483648", "-2147483649", "4294967295", "4294967296"] {
+        nums.push(s.to_string());
+    }
+    nums.sort();
+    nums.dedup();
+    nums
+}
+
 pub fn spaces(tier: Tier) -> Vec<Space<'static>> {
     let mut sp: Vec<Space> = vec![];
     let bound = if tier.thorough() { 4096 } else { 1024 };
@@ -302,6 +320,48 @@ pub fn spaces(tier: Tier) -> Vec<Space<'static>> {
         }
         acc.sample(|| json!({"doc": format!("{:?}", v), "arguments": "i32::MIN, MIN+1, MAX-1, MAX, MIN+len, MAX-len, -len-2..len+2"}));
     }));
+    // extreme numbers written as text in key paths and JSONPath index positions: parse, print, evaluate
+    {
+        let nums = std::sync::Arc::new(extreme_number_texts());
+        let d3 = docs.clone();
+        sp.push(Space::new("extreme numbers as text in key paths and JSONPath index positions", nums.len() as u64, move |i, acc| {
+            let n = &nums[i as usize];
+            let (_, doc) = &d3[d3.len() - 1];
+            let kps = [format!("{{{}}}", n), format!("{{0,{}}}", n), format!("{{ {} , a}}", n)];
+            let jps = [format!("$[{}]", n), format!("$[last - {}]", n), format!("$[last + {}]", n), format!("$[last-{}]", n), format!("$[{} to last]", n), format!("$[0 to {}]", n), format!("$[{}, {}]", n, n), format!("$[*]?(@ == {})", n), format!("$.a[{} to {}]", n, n)];
+            for t in kps.iter() {
+                acc.eval();
+                acc.nontrivial += 1;
+                let r = guard(|| {
+                    if let Ok(k) = jsonb::keypath::parse_key_paths(t.as_bytes()) {
+                        let _ = format!("{}", k);
+                        let _ = jsonb::get_by_keypath(doc, k.paths.iter());
+                        let mut o = vec![];
+                        let _ = jsonb::delete_by_keypath(doc, k.paths.iter(), &mut o);
+                    }
+                });
+                if let Err(p) = r {
+                    let kind = if p.msg.contains("overflow") { "arithmetic-overflow" } else { "panic" };
+                    acc.vio(&format!("extreme-arg:key-path-text:{}", kind), || json!({"text": t, "panic": format!("{} {}", p.site, p.msg)}));
+                }
+            }
+            for t in jps.iter() {
+                acc.eval();
+                acc.nontrivial += 1;
+                let r = guard(|| {
+                    if let Ok(p) = jsonb::jsonpath::parse_json_path(t.as_bytes()) {
+                        let _ = format!("{}", p);
+                        let (mut d, mut o) = (vec![], vec![]);
+                        let _ = Selector::new(p, Mode::All).select(doc, &mut d, &mut o);
+                    }
+                });
+                if let Err(p) = r {
+                    let kind = if p.msg.contains("overflow") { "arithmetic-overflow" } else { "panic" };
+                    acc.vio(&format!("extreme-arg:jsonpath-text:{}", kind), || json!({"text": t, "panic": format!("{} {}", p.site, p.msg)}));
+                }
+            }
+        }));
+    }
     if tier.thorough() {
         // every i32 value for the index-taking functions on 2 documents, in blocks of 2^16
         let d2 = docs.clone();
